@@ -139,7 +139,10 @@ func (a sortableNodeArray) compare(lhs *CandidateNode, rhs *CandidateNode, dateT
 		isDateTime = errLhs == nil && errRhs == nil
 	}
 
-	if lhsTag == "!!null" && rhsTag != "!!null" {
+	if lhsTag == "!!null" && rhsTag == "!!null" {
+		// null and ~ are the same value
+		return 0
+	} else if lhsTag == "!!null" && rhsTag != "!!null" {
 		return -1
 	} else if lhsTag != "!!null" && rhsTag == "!!null" {
 		return 1
